@@ -351,6 +351,16 @@ partial def loop (h : IO.FS.Stream) (s : St) : IO Unit := do
       if !(sg.contains "stop-drop" || sg.contains "stopped-backlog") then
         printVios (if s.diverged then s.sc ++ "~" else s.sc) s.line [{ prop := "C03", clause := "hang", sigs := sg, detail := s!"external await of event {e} never returns" }]
       loop h s
+    | ["oAccepted", b, e, q] =>
+      -- C14: a dispatch that returned normally has put the event on the bus's queue
+      if !(natList q).contains e.toNat! then
+        printVios (if s.diverged then s.sc ++ "~" else s.sc) s.line
+          [⟨"C14", "silentDrop", [], s!"dispatch of event {e} to bus {b} returned normally but the event is not queued (queue {q})"⟩]
+      match checkObs s.w ["oQueue", b, q] with
+      | some diffs =>
+        for (what, m, r) in diffs do IO.println s!"OBS {s.sc} {s.line} {what} model={m} real={r}"
+        loop h (if diffs.isEmpty then s else { s with diverged := true, w := resync s.w ["oQueue", b, q] })
+      | none => loop h s
     | ["expectHang", x] =>
       -- at rest, a task is still inside expect(): fine while it has neither a match nor a passed deadline
       (match s.w.waiter x.toNat! with
@@ -382,6 +392,16 @@ partial def loop (h : IO.FS.Stream) (s : St) : IO Unit := do
               let sg : List String := if E.path.getLast? != some I.bus && E.path.contains I.bus then ["F9"] else []
               let vio : Vio := ⟨"C09", "eventBus", sg, s!"instance {i} on bus {I.bus} read event_bus = {got}"⟩
               printVios (if s.diverged then s.sc ++ "~" else s.sc) s.line [vio]
+          -- C13: the bound, evaluated on the history observed on the real bus after a dispatch / processing step
+          | ["oHist", b, hh] =>
+            let real := natList hh
+            (match (s.w.bus b.toNat!).maxh with
+             | some n =>
+               if n != 0 && real.length > n then
+                 printVios (if s.diverged || !diffs.isEmpty then s.sc ++ "~" else s.sc) s.line
+                   [⟨"C13", "bound", [], s!"bus {b}: history holds {real.length} events, max_history_size is {n}"⟩]
+               else pure ()
+             | none => pure ())
           | _ => pure ()
           loop h (if diffs.isEmpty then s else { s with diverged := true, w := resync s.w toks })
         | none =>
